@@ -35,7 +35,7 @@ func init() {
 		Jobs: func(tier string) []JobSpec {
 			var js []JobSpec
 			add := func(name string, b int, params map[string]int64) {
-				js = append(js, JobSpec{Name: name, Harness: "datafile", Func: "verifHarnessC11Scaled", Params: params, Scale: scaleDF(b)})
+				js = append(js, JobSpec{Name: name, Harness: "datafile", Func: "verifHarnessC11Scaled", Params: params, Scale: scaleDF(b), ConcCap: 256})
 			}
 			if tier == "quick" {
 				add("B32-std-1rec", 32, p("n", 1, "maxlen", 70, "io", 0))
